@@ -375,7 +375,7 @@ def run_track(case: dict) -> dict:
                        get_time=MockClock([0.25]), **kwargs):
             got.append(v)
     else:
-        progress = Progress(console=console, auto_refresh=auto, get_time=MockClock([0.25]))
+        progress = Progress(console=console, auto_refresh=auto, get_time=MockClock([0.25]), disable=bool(case.get("disable")))
         if case.get("with_display", True):
             with progress:
                 for v in progress.track(seq, update_period=case.get("period", 0.001), **kwargs):
@@ -404,6 +404,9 @@ def _track_cases(tier: str) -> List[dict]:
                     case = {"seq": kind, "n": n, "auto_refresh": auto, "api": api, "terminal": (n % 2 == 0),
                             "period": 0.001 if n % 3 else 0.0001, "with_display": not (n % 5 == 4 and not auto)}
                     cases.append(case)
+                    if api == "method" and n in (0, 1, 3, 20):
+                        # a disabled display still counts what track() hands out
+                        cases.append(dict(case, disable=True))
     return cases
 
 
